@@ -28,7 +28,7 @@ RULE = ('a case is one catalogue (origin: hand-built objects with Python scalars
 ASSUMPTIONS = ['astropy.io.ascii / astropy.io.votable / astropy.io.fits / sqlite3 are trusted as *direct* readers of the files',
                'domain: string attributes are non-empty, free of separators and not parseable as numbers; integer '
                'attributes hold integers |x| < 2^31; float attributes hold finite values 1e-30 <= |x| <= 1e30, 0, -1 or NaN',
-               'precision classes: text/VOTable/sqlite 2 ulp of double (float32 attributes: 6e-8 relative), FITS 6e-8 '
+               'precision classes: text/VOTable/sqlite the identical double (float32 attributes: 6e-8 relative), FITS 6e-8 '
                'relative (2^-24 is the float32 half-ulp); NaN must come back as a real NaN (sqlite: NULL), -1 exactly']
 MIN_REACH = {'catalogs:save_catalog': 1, 'catalogs:write_catalog.<locals>.writer': 1, 'catalogs:writeFITSTable': 1,
              'catalogs:writeDB': 1, 'catalogs:load_table': 1, 'catalogs:table_to_source_list': 1,
@@ -36,14 +36,16 @@ MIN_REACH = {'catalogs:save_catalog': 1, 'catalogs:write_catalog.<locals>.writer
 MIN_COUNTERS = {'roundtrips_aegean_reader': 100, 'roundtrips_direct_reader': 50, 'roundtrips_sqlite': 30,
                 'cells_float': 10000, 'cells_nan': 500, 'cells_minus1': 100, 'cells_int': 2000, 'cells_str': 2000,
                 'origin_hand': 5, 'origin_reload_csv': 3, 'origin_reload_fits': 2, 'origin_finder': 1,
-                'files_checked': 100, 'first_row_atypical_catalogues': 3, 'overwrites': 50, 'sequence_writes': 200, 'sequence_writes_sqlite': 80}
+                'files_checked': 100, 'first_row_atypical_catalogues': 3, 'overwrites': 50, 'sequence_writes': 200, 'sequence_writes_sqlite': 80,
+                'text_files_over_1MiB': 5, 'text_files_over_1MiB_csv': 2, 'text_files_over_1MiB_tab': 2,
+                'spelled_extension_writes': 40, 'cells_double_exact_compared': 10000}
 BATCHES_PER_JOB = 4
 
 TABLE_FORMATS = ['csv', 'tab', 'tex', 'vot', 'xml', 'fits']
 DB_FORMATS = ['db', 'sqlite']
 INT_FIELDS = {'island', 'source', 'flags', 'components', 'x_width', 'y_width', 'pixels'}
 STR_FIELDS = {'ra_str', 'dec_str', 'uuid'}
-TOL_DOUBLE = 4.5e-16
+TOL_DOUBLE = 0.0          # 'equal to full double precision': the same double (csv/tab/tex/vot/sqlite)
 TOL_SINGLE = 6e-8
 SUFFIX = {'ComponentSource': '_comp', 'IslandSource': '_isle', 'SimpleSource': '_simp'}
 DBTABLE = {'ComponentSource': 'components', 'IslandSource': 'islands', 'SimpleSource': 'simples'}
@@ -383,7 +385,11 @@ def _cmp_cell(o, fmt, how, name, exp, got, ctx):
     tol = TOL_SINGLE if single else TOL_DOUBLE
     err = abs(g - x)
     if x != 0:
-        o.worst('rel_err_single_over_6e-8' if single else 'rel_err_double_over_4.5e-16', err / abs(x) / tol)
+        if single:
+            o.worst('rel_err_single_over_6e-8', err / abs(x) / tol)
+        else:
+            o.worst('double_error_in_ulp', err / np.spacing(abs(x)))
+            o.count('cells_double_exact_compared')
     if not (err <= tol * abs(x)):
         _viol(o, 'float_cell', wit(rel_err=(err / abs(x)) if x != 0 else err, tolerance=tol))
 
@@ -419,7 +425,12 @@ def _roundtrip_table(o, cat, exp, fmt, variant, workdir, ctx, prior=None):
     classes = _classes()
     d = os.path.join(workdir, '%s_%s' % (fmt, variant))
     os.makedirs(d)
-    base = os.path.join(d, 'cat.' + fmt)
+    # `fmt` is the extension as spelled by the caller (OUT.CSV, Field.Vot ...): the documented per-type names keep it
+    ext, fmt, stem = fmt, fmt.lower(), ctx.get('stem', 'cat')
+    if ext != fmt:
+        o.count('spelled_extension_writes')
+        ctx = dict(ctx, file_name=stem + '.' + ext)
+    base = os.path.join(d, stem + '.' + ext)
     prefix = 'pfx' if variant == 'prefix_meta' else None
     meta = {'PROGRAM': 'aegmon', 'RUN-AS': '--input a.fits --table out.%s' % fmt, 'NOTE': 'x' * 90} \
         if variant == 'prefix_meta' else None
@@ -442,22 +453,28 @@ def _roundtrip_table(o, cat, exp, fmt, variant, workdir, ctx, prior=None):
     except Exception:
         _viol(o, 'raises', dict(ctx, format=fmt, where='save_catalog', traceback=traceback.format_exc()[-700:]))
         return
-    want = sorted('cat%s.%s' % (SUFFIX[k], fmt) for k in exp if exp[k])
+    want = sorted('%s%s.%s' % (stem, SUFFIX[k], ext) for k in exp if exp[k])
     have = sorted(os.listdir(d))
     o.count('files_checked', len(want))
     # a sibling file left by an earlier catalogue of another type mix is not judged (the statement is about the
     # files a write produces); every file this write produces must exist and hold exactly this catalogue
-    stale_ok = set('cat%s.%s' % (SUFFIX[type(s_).__name__], fmt) for s_ in (prior or []))
+    stale_ok = set('%s%s.%s' % (stem, SUFFIX[type(s_).__name__], ext) for s_ in (prior or []))
     if not (set(want) <= set(have) and set(have) <= set(want) | stale_ok):
         _viol(o, 'files', dict(ctx, format=fmt, expected=want, found=have))
     for clsname, rows in exp.items():
         if not rows:
             continue
-        path = os.path.join(d, 'cat%s.%s' % (SUFFIX[clsname], fmt))
+        path = os.path.join(d, '%s%s.%s' % (stem, SUFFIX[clsname], ext))
         if not os.path.exists(path):
             continue
         names = classes[cl[clsname]].names
         o.n_eval += 1
+        if fmt in ('csv', 'tab', 'tex'):
+            size = os.path.getsize(path)
+            o.worst('largest_text_file_bytes', size)
+            if size > 2 ** 20:
+                o.count('text_files_over_1MiB')
+                o.count('text_files_over_1MiB_' + fmt)
         # (a) Aegean's own reader (cannot map prefixed columns back, so only for the plain variant)
         if prefix is None:
             try:
@@ -500,7 +517,11 @@ def _roundtrip_db(o, cat, exp, fmt, workdir, ctx, prior=None):
     cl = {'ComponentSource': 'comp', 'IslandSource': 'isle', 'SimpleSource': 'simp'}
     d = os.path.join(workdir, fmt)
     os.makedirs(d)
-    path = os.path.join(d, 'cat.' + fmt)
+    ext, fmt, stem = fmt, fmt.lower(), ctx.get('stem', 'cat')
+    if ext != fmt:
+        o.count('spelled_extension_writes')
+        ctx = dict(ctx, file_name=stem + '.' + ext)
+    path = os.path.join(d, stem + '.' + ext)
     ctx = dict(ctx, variant='plain')
     try:
         with warnings.catch_warnings():
@@ -517,8 +538,8 @@ def _roundtrip_db(o, cat, exp, fmt, workdir, ctx, prior=None):
         return
     have = sorted(os.listdir(d))
     o.count('files_checked')
-    if have != ['cat.' + fmt]:
-        _viol(o, 'files', dict(ctx, format=fmt, expected=['cat.' + fmt], found=have))
+    if have != [stem + '.' + ext]:
+        _viol(o, 'files', dict(ctx, format=fmt, expected=[stem + '.' + ext], found=have))
         return
     con = sqlite3.connect(path)
     try:
@@ -590,6 +611,26 @@ def cases(seed, tier):
         for mix in (['comp'], ['isle'], ['simp']):
             add('hand', recipe='random', n=n, mix=mix, seed=[0, 'tiny', n, mix[0]], variants=('plain',))
     add('finder', recipe='finder', nsrc=8, seed=[0, 'finder'])
+    # size strata: text files well over 1 MiB (readers may switch strategy with size), compared exactly
+    add('hand', recipe='random', n=3000, mix=['comp'], formats=['csv', 'tab', 'tex'], variants=('plain',),
+        p_nan=0.03, p_extreme=0.3, seed=[0, 'big', 'comp', 3000])
+    add('hand', recipe='random', n=5000, mix=['isle'], formats=['csv', 'tab'], variants=('plain',),
+        p_nan=0.03, p_extreme=0.3, seed=[0, 'big', 'isle', 5000])
+    add('reload_csv', recipe='random', n=2600, mix=['comp'], formats=['tab', 'csv'], variants=('plain',),
+        p_nan=0.0, p_extreme=0.5, seed=[0, 'big', 'comp', 2600])
+    if not quick:
+        add('hand', recipe='random', n=6000, mix=['comp', 'isle', 'simp'], every_type=True, variants=('plain',),
+            seed=[0, 'big', 'mixed', 6000])
+        add('hand', recipe='random', n=8000, mix=['simp'], formats=['csv', 'tab', 'tex'], variants=('plain',),
+            seed=[0, 'big', 'simp', 8000])
+    # spelling of the file name: the per-type files are documented as base_comp.ext etc. for filename = base.ext
+    add('hand', recipe='random', n=9, mix=['comp', 'isle', 'simp'], every_type=True, stem='Field_A',
+        formats=['CSV', 'Csv', 'TAB', 'Tab', 'TEX', 'teX', 'VOT', 'Vot', 'XML', 'Xml', 'FITS', 'Fits', 'DB', 'Db',
+                 'SQLITE', 'SQLite'], seed=[0, 'spelling', 0])
+    add('reload_csv', recipe='random', n=6, mix=['comp', 'simp'], every_type=True, stem='OUT',
+        formats=['CSV', 'TAB', 'TEX', 'VOT', 'XML', 'FITS', 'DB', 'SQLITE'], seed=[0, 'spelling', 1])
+    add('hand', recipe='random', n=4, mix=['isle'], stem='x.y', formats=['Csv', 'Fits', 'Vot', 'Db', 'csv'],
+        variants=('plain',), seed=[0, 'spelling', 2])
     # write sequences to the same file name: catalogue A (one type mix) then catalogue B (another): all ordered
     # pairs of non-empty subsets of {components, islands, simples}
     subsets = [['comp'], ['isle'], ['simp'], ['comp', 'isle'], ['comp', 'simp'], ['isle', 'simp'], ['comp', 'isle', 'simp']]
@@ -642,8 +683,10 @@ def run(case):
                                              seed=list(case['seed']) + ['prior']), workdir)
             ctx['sequence'] = '%s then %s' % ('+'.join(case['prior_mix']), '+'.join(case['mix']))
             o.see('write_sequences', ctx['sequence'])
+        if case.get('stem'):
+            ctx['stem'] = case['stem']
         for fmt in case['formats']:
-            if fmt in DB_FORMATS:
+            if fmt.lower() in DB_FORMATS:
                 _roundtrip_db(o, cat, exp, fmt, workdir, ctx, prior=prior)
             else:
                 for variant in case['variants']:
